@@ -8,6 +8,14 @@ pub mod parser;
 mod serde;
 pub mod subtags;
 
+/// Verification hook (off unless built with `--cfg unic_locale_verif`): read-only access to
+/// the compiled direction tables.
+#[cfg(unic_locale_verif)]
+#[doc(hidden)]
+pub mod verif_layout {
+    pub use crate::layout_table::*;
+}
+
 pub use crate::errors::LanguageIdentifierError;
 use std::fmt::Write;
 use std::iter::Peekable;
